@@ -10,6 +10,7 @@ import Xo.Drv.Hybrid
 import Xo.Drv.DictForm
 import Xo.Drv.Pickle
 import Xo.Drv.RefGraph
+import Xo.Drv.Place
 /-! `lake env lean --run Driver.lean <component>` : stdin ops → stdout results -/
 def main (args : List String) : IO UInt32 := do
   let i ← IO.getStdin
@@ -26,5 +27,6 @@ def main (args : List String) : IO UInt32 := do
   | ["dict"] => Drv.loop i o Drv.DictD.step {}; return 0
   | ["pk"] => Drv.loop i o Drv.PkD.step (); return 0
   | ["rg"] => Drv.loop i o Drv.RGD.step Drv.RGD.init; return 0
+  | ["place"] => Drv.loop i o Drv.PlaceD.step (); return 0
   | ["topo"] => Drv.loop i o Drv.TopoD.step (); return 0
   | _ => IO.eprintln "usage: Driver.lean <component>"; return 2
